@@ -5,8 +5,18 @@ claim("C01", "FLOW effect signature of VolumeUpdates + parsed shape of the accou
       "Decides, on every run and for the whole tree, the structural conditions without which conservation cannot hold: each posting amount reaches exactly (source output +) and (destination input +); the upsert adds excluded.* onto the same column on the table's primary key; no other statement anywhere (Go, direct SQL, trigger/function bodies after all migrations) writes accounts_volumes; every SQL expression labelled input/output reads the matching side. It does not decide numeric results; a test can sample histories but cannot say 'no other writer exists'.",
       "Trusted: go/types, x/tools go/cfg, bun rendering clauses as given, Postgres ON CONFLICT semantics, own SQL front-end for the dialect subset (unparsed statements fail the check).", "DESIGN.md §3 C01")
 
+claim("C02", "must-pass-through/dominance on CommitTransaction + who-may-call over a class-hierarchy call index + FLOW on balance computations + transaction-handle ownership (TXH) and begin/commit pairing (PAIR)",
+      "Decides that the volumes upsert, the transaction row and the moves are always written together, in order, on one handle, from the three operations only; that balances are input minus output everywhere; that current-volume readers use accounts_volumes exactly when no point in time is set; and (shared with C07) that failed or dry-run operations cannot commit. Value equality with the fold is not decided.",
+      "Trusted: go/types, go/cfg, class-hierarchy resolution of interface calls inside the module, bun/database-sql transaction semantics.", "DESIGN.md §3 C02")
+claim("C03", "FLOW/step-order analysis of the unwinding loop + alias chain of the RETURNING scan + who-may-write per column over Go builders and final SQL function bodies",
+      "Decides the shape that makes post-commit volumes right and immutable: copy before unwinding, reversed private copy of the postings, snapshot-before-subtract per side, IsSource placement, SubtractPostings on a copy, the returned map sharing its big.Int pointees with the rows bun scans into, and no UPDATE anywhere assigning post_commit_volumes. Driver scan order and numeric values are not decided.",
+      "Trusted: bun Model+Returning scans into the model elements in order; own SQL front-end (unparsed write statements fail the check).", "DESIGN.md §3 C03")
+claim("C07", "transaction-handle ownership (TXH) over all store call sites + begin/commit/rollback typestate on go/cfg with branch-correlation (PAIR) + error-must-propagate over every err != nil branch of the write path (ERRP)",
+      "Decides for every call site and every path (not the sampled ones) that writes and row locks only go through the request's SQL transaction, that every path from BeginTX reaches Commit or Rollback, that Commit is unreachable from error and dry-run branches, and that no error branch of storage/controller/bulk code falls through or returns nil outside enumerated idioms. It found and the repository now fixes InsertLog dropping constraint errors. Whether Postgres undoes the work is trusted.",
+      "Trusted: database/sql+bun transaction semantics; CHA call resolution; enumerated idioms listed in errp.go.", "DESIGN.md §4 C07")
+
 PENDING = "check not built yet in this round (planned in DESIGN.md); not claimed until its rule runs"
-for p in ["C02","C03","C04","C05","C06","C07","C08","C09","C10","C11","C12","C13","C14","C15","C16","C17","C18","C19","C20","C25","C27","C28","C29","C30","C31","C32","C33","C34","C35","C36","C37","C38"]:
+for p in ["C04","C05","C06","C08","C09","C10","C11","C12","C13","C14","C15","C16","C17","C18","C19","C20","C25","C27","C28","C29","C30","C31","C32","C33","C34","C35","C36","C37","C38"]:
     na(p, PENDING)
 
 na("C21", "exactly-once enumeration is arithmetic over database result pages (>= id, limit n+1, offsets); no necessary clause of it is visible as code shape without evaluating queries")
